@@ -239,6 +239,15 @@ def step (pool : Pool) (cmd : Json) : Pool × Json :=
       match (strOf? h).bind pool.get? with
       | some a => (pool, .bool (noBins a))
       | none => (pool, err "no handle")
+    | "$goodrun", [h, .arr rows] =>
+      match (strOf? h).bind pool.get? with
+      | some a =>
+        match rows.mapM (fun row => match row with
+            | .arr [d, w] => (datumOf? d).bind (fun d => (valOf? w).map (fun w => (d, w)))
+            | _ => none) with
+        | some s => (pool, .bool (goodRun a s))
+        | none => (pool, err "bad rows")
+      | none => (pool, err "no handle")
     | "$liveok", [h] =>
       match (strOf? h).bind pool.get? with
       | some a => (pool, .bool (liveOk a))
